@@ -96,11 +96,17 @@ def addThousandSeparators (s : List Char) : List Char :=
 
 /-! ### the float steps -/
 
+/-- `decimal_exponent`: `floor(log10 x)`, corrected when `log10` rounded up to the next
+    integer (values a few ulps below a power of ten) -/
+def decimalExponent (ops : NumOps) (absValue : F64) : Int :=
+  let exponent : Int := (ops.floor (ops.log10 absValue)).toI32
+  if F64.flt absValue (ops.powi ten exponent) then exponent - 1 else exponent
+
 /-- `round_to_significant_figures(value, sig_figs)` -/
 def roundToSignificantFigures (ops : NumOps) (value : F64) (sigFigs : Nat) : F64 :=
   if F64.feq value F64.zero then F64.zero
   else
-    let magnitude : Int := (ops.floor (ops.log10 value.abs)).toI32
+    let magnitude : Int := decimalExponent ops value.abs
     let scale := ops.powi ten (Int.ofNat sigFigs - 1 - magnitude)
     ops.div (ops.round (ops.mul value scale)) scale
 
@@ -108,7 +114,7 @@ def roundToSignificantFigures (ops : NumOps) (value : F64) (sigFigs : Nat) : F64
 def decimalPlaces (ops : NumOps) (value : F64) (maxSigFigs : Nat) : Nat :=
   let absValue := value.abs
   let ge1 := F64.fle F64.one absValue
-  let fl : Int := (ops.floor (ops.log10 absValue)).toI32
+  let fl : Int := decimalExponent ops absValue
   let magnitude : Int := if ge1 then fl + 1 else -fl
   let dp : Int := if ge1 then Int.ofNat maxSigFigs - magnitude else Int.ofNat maxSigFigs + magnitude - 1
   (if dp < 0 then 0 else dp).toNat
